@@ -22,6 +22,7 @@ import IgrisModel.C13.Total2
 import IgrisModel.C13.ShapeMain
 import IgrisModel.C13.ErrBound
 import IgrisModel.C13.Round3
+import IgrisModel.C13.Round3b
 namespace Igris.C13
 open Igris.C06 (Ops NUL)
 
@@ -661,5 +662,50 @@ theorem tie_canon_exact_tie (w u lo : ℚ) (hw : 0 ≤ w) (hpos : 0 < u) (hu : w
   have g1 : ¬ (lo > lo + u / 2) := by linarith
   have g2 : lo + u > lo + u / 2 := by linarith
   simp [hu, hw, g1, g2]
+
+/-! ### Round 3b: `tieSeen` and `digitsOf` are functions of ONE definition (`digitsPre`, Round3b.lean) -/
+
+/-- **digitsOf_eq_pre** — `digitsOf` is its first half `digitsPre` (the lines of print_f up to and including the
+fraction scaling loop, the only part that can diverge or be undefined) followed by the pure second half `digitsPost`
+(roundl, carry, trailing-zero removal, renormalisation): every arithmetic instance, constants, fuel, argument,
+precision, flag set, f/e/g. -/
+theorem digitsOf_eq_pre {α : Type} (A : Arith α) (cfg : Cfg) (fuel : Nat) (r : α) (precision : Int) (ops : Ops)
+    (withExp isShort : Bool) :
+    digitsOf A cfg fuel r precision ops withExp isShort =
+      (digitsPre A cfg fuel r precision ops withExp isShort).map (digitsPost A cfg ops isShort) :=
+  digitsOf_eq_pre_aux A cfg fuel r precision ops withExp isShort
+
+/-- **tieSeen_eq_pre** — the question the tie observable asks (`tieSeen`, Tie.lean: "did the engine see a tie") is a
+question about the SAME state: `tieSeen` = "`digitsPre` returns a state p and the value p.fp it hands to `roundl` has the
+fractional part exactly 1/2".  Together with `digitsOf_eq_pre`: the value `tieSeen` tests is the value `digitsOf`
+rounds; `tieSeen` is no longer a second copy that only the `Tf` fields of the stream tie to the model. -/
+theorem tieSeen_eq_pre {α : Type} (A : Arith α) (cfg : Cfg) (fuel : Nat) (r : α) (precision : Int) (ops : Ops)
+    (withExp isShort : Bool) :
+    tieSeen A cfg fuel r precision ops withExp isShort =
+      (match digitsPre A cfg fuel r precision ops withExp isShort with
+       | .ok p => A.eq (A.fmod p.fp A.one) (A.div A.one (A.ofInt 2))
+       | .error _ => false) :=
+  tieSeen_eq_pre_aux A cfg fuel r precision ops withExp isShort
+
+/-- **tieSeen_of_digitsOf** — the two facts combined: whenever print_f's digit generation returns (`digitsOf = ok d`),
+there is ONE pre-rounding state p with `d = digitsPost p` and `tieSeen = (frac p.fp = 1/2)`; when it does not return,
+`tieSeen` is false (the result field is then `diverged`/`undef`, never `Tf`). -/
+theorem tieSeen_of_digitsOf {α : Type} (A : Arith α) (cfg : Cfg) (fuel : Nat) (r : α) (precision : Int) (ops : Ops)
+    (withExp isShort : Bool) :
+    (∃ p, digitsPre A cfg fuel r precision ops withExp isShort = .ok p ∧
+          digitsOf A cfg fuel r precision ops withExp isShort = .ok (digitsPost A cfg ops isShort p) ∧
+          tieSeen A cfg fuel r precision ops withExp isShort = A.eq (A.fmod p.fp A.one) (A.div A.one (A.ofInt 2))) ∨
+    (∃ e, digitsOf A cfg fuel r precision ops withExp isShort = .error e ∧
+          tieSeen A cfg fuel r precision ops withExp isShort = false) := by
+  rw [digitsOf_eq_pre, tieSeen_eq_pre]
+  cases h : digitsPre A cfg fuel r precision ops withExp isShort with
+  | ok p => exact Or.inl ⟨p, rfl, rfl, rfl⟩
+  | error e => exact Or.inr ⟨e, rfl, rfl⟩
+
+-- non-vacuity: `%.2f` of 1/8 (scaled fraction 12.5: a tie), `%.2f` of 1/4 (25: no tie), exact arithmetic
+example : tieSeen exactA cfgNow 10 (.fin false (1 / 8)) 2 { prec := true } false false = true ∧
+    tieSeen exactA cfgNow 10 (.fin false (1 / 4)) 2 { prec := true } false false = false := by
+  decide +kernel
+
 
 end Igris.C13
